@@ -427,3 +427,48 @@ Section Proofs.
   Qed.
 
 End Proofs.
+
+(** the run depends on the oracle stream only pointwise (no hidden state) *)
+Section Ext.
+  Variables V M T : Type.
+  Variable tcmp : T -> T -> comparison.
+  Variable mean : list T -> T.
+  Variable hit : T -> bool.
+  Variables max_pop min_reeval ss : nat.
+  Variable nc : N.
+  Variable budget : option N.
+  Variable init_val : V.
+  Variables os1 os2 : N -> orc V M.
+  Hypothesis Hos : forall s, os1 s = os2 s.
+
+  Lemma push_ext c : Ctl.push (T:=T) min_reeval ss init_val os1 c = Ctl.push (T:=T) min_reeval ss init_val os2 c.
+  Proof. unfold Ctl.push. rewrite Hos. reflexivity. Qed.
+
+  Lemma push_n_ext k : forall c, Ctl.push_n (T:=T) min_reeval ss init_val os1 k c = Ctl.push_n (T:=T) min_reeval ss init_val os2 k c.
+  Proof. induction k as [|k IH]; intros c; cbn [Ctl.push_n]; [reflexivity|]. rewrite push_ext. apply IH. Qed.
+
+  Lemma step_ext c l :
+    Ctl.step tcmp mean hit max_pop min_reeval ss budget init_val os1 c l =
+    Ctl.step tcmp mean hit max_pop min_reeval ss budget init_val os2 c l.
+  Proof.
+    destruct l as [seed o ok| |]; cbn [Ctl.step]; try reflexivity.
+    destruct (take seed (c_infl c)) as [[i rest]|]; [|reflexivity].
+    unfold Ctl.done_turn. destruct o; try reflexivity;
+      (unfold Ctl.ok_turn; destruct (negb ok); [reflexivity|];
+       match goal with |- context [Ctl.process ?a ?b ?c ?d ?e ?f ?g] => destruct (Ctl.process a b c d e f g) end; [|reflexivity];
+       unfold Ctl.decide; rewrite push_ext; reflexivity).
+  Qed.
+
+  Theorem exec_ext ls : forall c,
+    Ctl.exec tcmp mean hit max_pop min_reeval ss budget init_val os1 c ls =
+    Ctl.exec tcmp mean hit max_pop min_reeval ss budget init_val os2 c ls.
+  Proof.
+    induction ls as [|l ls IH]; intros c; cbn [Ctl.exec]; [reflexivity|].
+    rewrite step_ext. destruct (Ctl.step _ _ _ _ _ _ _ _ _ c l); try reflexivity. apply IH.
+  Qed.
+
+  Theorem run_ext ls :
+    Ctl.exec tcmp mean hit max_pop min_reeval ss budget init_val os1 (Ctl.init T min_reeval ss nc budget init_val os1) ls =
+    Ctl.exec tcmp mean hit max_pop min_reeval ss budget init_val os2 (Ctl.init T min_reeval ss nc budget init_val os2) ls.
+  Proof. unfold Ctl.init. rewrite push_n_ext. apply exec_ext. Qed.
+End Ext.
